@@ -44,6 +44,19 @@ def label_pool(m):
     return 'mix', INTS + STRS
 
 
+def unorderable_mix(ix):
+    '''True if the labels of some depth mix strings with other types (sorting them raises TypeError).'''
+    try:
+        rows = [tuple(t) for t in ix] if ix.depth > 1 else [(x,) for x in ix]
+    except Exception:
+        return False
+    for d in range(ix.depth if rows else 0):
+        kinds = {isinstance(r[d], str) for r in rows if d < len(r)}
+        if len(kinds) > 1:
+            return True
+    return False
+
+
 def raw_duplicates(obj):
     '''True if two labels held by the index are the same key of a hash map (equal AND equally hashed): the library's
     notion of a duplicate. (`datetime.date(2013, 1, 1) == numpy.datetime64('2013')` is True under NumPy 2, but the two
@@ -624,6 +637,15 @@ class IndexOps:
             return 'raise:' + type(r).__name__
         if not isinstance(r, IndexBase):
             return 'not-index'
+        if how in ('union', 'intersection', 'difference') and unorderable_mix(r):
+            # labels that cannot be ordered (str next to numbers) come out of a set operation in set order, which depends
+            # on the interpreter's hash seed: such a result is checked once here (unique, readable) but not followed
+            st_, raw_ = call(lambda: list(r))
+            if st_ == 'raise' or len(set(map(repr, raw_))) != len(raw_) or len(raw_) != len(r):
+                raise Violation('C02.unique' if self.profile == 'C02' else f'{self.profile}.views' if self.profile == 'C05' else 'C09.lockstep',
+                                f'{m.cls}.{how}', 'unorderable-labels', f'set operation result unreadable or with repeated labels: {raw_!r:.200}')
+            self.stats['derive-not-followed:hash-seed-dependent-order'] += 1
+            return 'unordered-result'
         self.stats['derive:' + how] += 1
         site = f'{m.cls}.{how}'
         return self.adopt_index(r, op['out'], site, op)
